@@ -118,4 +118,76 @@ theorem natStr_digits (n : Nat) : ∀ c ∈ natStr n, isDigit c = true := by
   intro c hc
   exact (List.all_eq_true.mp h1) c (by simpa [natStr] using hc)
 
+
+theorem spanDigits_append_nondigit (ds : Str) (hall : ds.all isDigit = true) (c : Nat) (hc : isDigit c = false) (rest : Str) :
+    spanDigits (ds ++ c :: rest) = (ds, c :: rest) := by
+  induction ds with
+  | nil => simp [spanDigits, hc]
+  | cons d r ih =>
+    simp only [List.all_cons, Bool.and_eq_true] at hall
+    simp [spanDigits, hall.1, ih hall.2]
+
+theorem natStr_all (n : Nat) : (natStr n).all isDigit = true := (natDigits_spec (n + 1) n (by omega)).1
+
+/-- one `<n><unit>` component in front of an already parsed tail -/
+theorem ptSeconds_component (fuel n k : Nat) (u : Nat) (rest : Str) (tail : Nat)
+    (hu : (if u = 72 then some 3600 else if u = 77 then some 60 else if u = 83 then some 1 else none) = some k)
+    (hud : isDigit u = false) (hu46 : u ≠ 46)
+    (ht : ptSeconds fuel rest = some (tail, 1)) :
+    ptSeconds (fuel + 1) (natStr n ++ u :: rest) = some (n * k + tail, 1) := by
+  have hs := spanDigits_append_nondigit (natStr n) (natStr_all n) u hud rest
+  have hne : natStr n ++ u :: rest ≠ [] := by simp
+  cases hl : natStr n ++ u :: rest with
+  | nil => exact absurd hl hne
+  | cons a t =>
+    rw [← hl]
+    unfold ptSeconds
+    rw [hl] 
+    simp only
+    rw [← hl, hs]
+    simp [hu46, digits_natStr, hu, ht]
+
+theorem ptSeconds_nil (f : Nat) : ptSeconds (f + 1) [] = some (0, 1) := by simp [ptSeconds]
+
+theorem ptSeconds_S (f s : Nat) :
+    ptSeconds (f + 2) (if s > 0 then natStr s ++ [83] else []) = some (s, 1) := by
+  by_cases h : s > 0
+  · simp only [h, if_true]
+    have := ptSeconds_component (f + 1) s 1 83 [] 0 (by decide) (by decide) (by decide) (ptSeconds_nil f)
+    simpa using this
+  · have : s = 0 := by omega
+    subst this; simp [ptSeconds]
+
+theorem ptSeconds_MS (f m s : Nat) :
+    ptSeconds (f + 3) ((if m > 0 then natStr m ++ [77] else []) ++ (if s > 0 then natStr s ++ [83] else [])) = some (m * 60 + s, 1) := by
+  by_cases h : m > 0
+  · simp only [h, if_true, List.append_assoc, List.singleton_append]
+    exact ptSeconds_component (f + 2) m 60 77 _ s (by decide) (by decide) (by decide) (ptSeconds_S f s)
+  · have : m = 0 := by omega
+    subst this
+    simp only [Nat.lt_irrefl, gt_iff_lt, if_false, List.nil_append, Nat.zero_mul, Nat.zero_add]
+    exact ptSeconds_S (f + 1) s
+
+theorem ptSeconds_HMS (f hh m s : Nat) (c : Bool) (hc : c = false → hh = 0) :
+    ptSeconds (f + 4) ((if c then natStr hh ++ [72] else []) ++
+      ((if m > 0 then natStr m ++ [77] else []) ++ (if s > 0 then natStr s ++ [83] else []))) = some (hh * 3600 + (m * 60 + s), 1) := by
+  cases c with
+  | true =>
+    simp only [if_true, List.append_assoc, List.singleton_append]
+    exact ptSeconds_component (f + 3) hh 3600 72 _ (m * 60 + s) (by decide) (by decide) (by decide) (ptSeconds_MS f m s)
+  | false =>
+    have := hc rfl; subst this
+    simp only [Bool.false_eq_true, if_false, List.nil_append, Nat.zero_mul, Nat.zero_add]
+    exact ptSeconds_MS (f + 1) m s
+
+/-- the H/M/S text `luis_time_span` writes denotes exactly the difference it was given -/
+theorem ptSeconds_luisTimeSpan (secs f : Nat) :
+    ptSeconds (f + 4) ((luisTimeSpan secs).drop 2) = some (secs, 1) := by
+  have key := ptSeconds_HMS f (secs / 86400 * 24 + secs % 86400 / 3600) (secs % 86400 % 3600 / 60) (secs % 86400 % 3600 % 60)
+    (decide (secs / 86400 > 0 ∨ secs % 86400 / 3600 > 0)) (by intro h; simp at h; omega)
+  have e : (secs / 86400 * 24 + secs % 86400 / 3600) * 3600 + (secs % 86400 % 3600 / 60 * 60 + secs % 86400 % 3600 % 60) = secs := by omega
+  rw [e] at key
+  simpa [luisTimeSpan, List.append_assoc] using key
+
+
 end RTV.WF
